@@ -42,7 +42,7 @@ CHECKS = {
    note="Profile (DESIGN 4.4): extension additions of generated SETs are textually in tag order (X.691 orders additions textually, the statement by tag; they coincide there)."),
  "C04": dict(engine="e_decode", category="fault_enumeration", design="5/C04",
    technique="exhaustive enumeration of all short inputs and of all single (thorough: double) faults of valid encodings, decoded by the real generated readers in worker processes (RLIMIT_AS, allocation meter, hang watchdog, crash attribution), with a differential over bytes beyond the declared length",
-   text="For each of 130 (quick) / ~700 (thorough) zoo types: EVERY bit string of every length 0..11 (thorough: 0..16 for the quick types, 0..12 for the rest) and every single fault - each bit flipped, truncation to every shorter length, each byte deleted, bytes 00/FF/80 inserted at each position, each byte overwritten with 00/FF/7F/80/C1/C4 - of up to 5 (10) valid seed encodings (thorough: also pairs of faults on seeds <= 40 bits). Every input is decoded three times (zero padded, one padded, followed by FF FF): no panic, abort or hang; no Ok with a reader position beyond the declared length; identical outcome in the three embeddings; largest allocation request <= 256 MiB and peak <= 64 MiB + 4096 x input bytes; bits_remaining()/pos() callable afterwards. DER: every byte string of <= 2 (3) bytes and long-form/oversized length patterns through read_identifier, read_length, read_boolean, read_integer_*, BasicReader::read_boolean/read_number.",
+   text="For each of 130 (quick) / ~700 (thorough) zoo types: EVERY bit string of every length 0..11 (thorough: 0..16 for the quick types, 0..12 for the rest) and every single fault - each bit flipped, truncation to every shorter length, each byte deleted, bytes 00/FF/80 inserted at each position, each byte overwritten with 00/FF/7F/80/C1/C4 - of up to 5 (10) valid seed encodings (thorough: also pairs of faults on seeds <= 24 bits of the quick types). Every input is decoded three times (zero padded, one padded, followed by FF FF): no panic, abort or hang; no Ok with a reader position beyond the declared length; identical outcome in the three embeddings; largest allocation request <= 256 MiB and peak <= 64 MiB + 4096 x input bytes; bits_remaining()/pos() callable afterwards. DER: every byte string of <= 2 (3) bytes and long-form/oversized length patterns through read_identifier, read_length, read_boolean, read_integer_*, BasicReader::read_boolean/read_number.",
    note="The protobuf reader part of the statement is explored by the C17 engine's fault pass (protobuf feature build). Inputs longer than L bits that are not within 1 (2) faults of a valid encoding are outside the bound."),
  "C19": dict(engine="e_decode", category="exploration", design="5/C19",
    technique="the C04 input space walked exhaustively by two builds of the same engine (feature off / on); per-block outcome digests compared, differing blocks re-walked case by case",
